@@ -212,6 +212,16 @@ claim('C31',
       'Crystals, order, exclusions enumerated; cutoff over stated intervals with a 1e-6 guard band around squared pair distances.',
       'DESIGN.md 3/C31')
 
+claim('C25',
+      'Bounded symbolic verification on enumerated crystals/networks/shells (origin states on): per star, for a SYMBOLIC vector, invariant '
+      'under the stabiliser of the representative <=> in the span of that star\'s vectors (both directions), count == invariant dimension, '
+      'orthonormality, equivariance under EVERY operation carrying the representative to a member; for SYMBOLIC Green-function star values '
+      'and omega1 rates, the contraction of GFexpansion, rate1expansion, rate1escape, bias1expansion, D1expansion equals the direct '
+      'state-space assembly projected on the vector stars (QF_LRA).',
+      'Crystal list includes a chiral 222 crystal and cells with C1 sites; GF values assumed symmetric under end-point swap; omega0/omega2 '
+      'variants and the origin-state fold-down are not covered. One defect found and fixed (2-fold rotation about dx).',
+      'DESIGN.md 3/C25')
+
 na('C01', 'exact oracle is an infinite-state pair Markov chain reached through Brillouin-zone quadrature, LAPACK and hyp1f1/expi; '
           'agreement only to integration accuracy: no algebraic statement a solver can decide (DESIGN 5)')
 na('C06', 'identities hold only for the true lattice Green function of the omega0 network (numerical k-space integration); '
